@@ -25,7 +25,7 @@ def correspondence(ctx, model_available=True):
     quick = ctx.tier == "quick"
     rng = ctx.rng
     n = 60 if quick else 700
-    sessions = dp.make_sessions(rng, n, lambda k: dc.RUN_KINDS, finish_of=lambda k: True)
+    sessions = dp.make_sessions(rng, n, lambda k: dc.RUN_KINDS, finish_of=lambda k: True, inner_calls=0.3)
     res = dp.correspondence("C11s", sessions, model_available, check_history=False)
     spec_failures = []
     stats = {"oracle_sessions": 0, "commands": 0, "finished": 0, "warnings": 0}
